@@ -272,10 +272,11 @@ def crash_violation(pid, out, replaydir, shard, run, statsdir):
     what = m.group(1).strip()[:120] if m else "crash"
     if m and m.group(1).startswith("DATA RACE"):
         fr = re.search(r"github.com/sdcio/data-server/pkg/([A-Za-z0-9_/.()*]+)", out[m.start():])
-        sig = "%s:data-race:%s" % (pid, (fr.group(1) if fr else "unknown").replace("(", "").replace(")", "").replace("*", ""))
+        sig = "%s:data-race:%s" % (pid, (re.sub(r"\(0x.*$", "", fr.group(1)) if fr else "unknown").replace("(", "").replace(")", "").replace("*", ""))
         return _journal_violation(pid, out, m, sig, replaydir, shard, statsdir, "the race detector reported a data race while this case was running (halt_on_error)")
     frame = re.search(r"github.com/sdcio/data-server/pkg/([A-Za-z0-9_/.()*]+)", out[m.start():] if m else out)
-    sig = "%s:process-crash:%s" % (pid, (frame.group(1) if frame else "unknown").replace("(", "").replace(")", "").replace("*", ""))
+    site = re.sub(r"\(0x.*$", "", frame.group(1)) if frame else "unknown"
+    sig = "%s:process-crash:%s" % (pid, site.replace("(", "").replace(")", "").replace("*", ""))
     return _journal_violation(pid, out, m, sig, replaydir, shard, statsdir, "the worker process died while this case was running: " + what)
 
 
